@@ -140,28 +140,31 @@ def r3(ctx: Ctx, rep: Report):
     counter = "_consecutive_failures_count"
     paths = [p for p in enumerate_paths(prog, rfs, mr.oracle)]
     nret = nraise = 0
+    from ..replay import Replay
+    from ..symx import Lin
+    cexpr = ast.parse("self." + counter, mode="eval").body
     for p in paths:
-        stores = [(i, ev) for i, ev in enumerate(p.events) if ev.kind == "stmt" and any(a == counter for a, _, _ in self_store(ev.node))]
+        rp = Replay(prog, rfs, p)
+        before = rp.sym_at(0).lin(cexpr)
+        after = rp.sym.lin(cexpr)
         if p.end == "return":
             nret += 1
-            ok = any(isinstance(ev.node, ast.Assign) and isinstance(ev.node.value, ast.Constant) and ev.node.value.value == 0 for _, ev in stores) \
-                and not any(isinstance(ev.node, ast.AugAssign) for _, ev in stores)
+            ok = after.is_const() and after.const == 0
             rep.check(ok, "C09.R3", "reset-on-success:%s" % p.describe(6), rfs.loc(p.end_node), "success path resets %s to 0" % counter,
-                      bad="_read_from_socket returns a result without resetting %s [path %s]" % (counter, p.describe(6)))
+                      bad="_read_from_socket returns a result with %s = %r instead of 0 [path %s]" % (counter, after, p.describe(6)))
         elif p.end == "raise" and p.end_data is rfe and isinstance(p.end_node, ast.Raise):
             nraise += 1
-            incs = [ev for _, ev in stores if isinstance(ev.node, ast.AugAssign) and isinstance(ev.node.op, ast.Add)
-                    and isinstance(ev.node.value, ast.Constant) and ev.node.value.value == 1]
-            others = [ev for _, ev in stores if ev not in incs]
+            delta = after - before
             call = p.end_node.exc
             arg = None
             if isinstance(call, ast.Call):
                 arg = call.args[1] if len(call.args) > 1 else next((k.value for k in call.keywords if k.arg == "consecutive_failures_count"), None)
-            ok = len(incs) == 1 and not others and arg is not None and norm(arg) == "self." + counter
+            argv = rp.sym.lin(arg) if arg is not None else None
+            ok = delta.is_const() and delta.const == 1 and argv is not None and argv == after
             rep.check(ok, "C09.R3", "count-on-failure:%s" % p.describe(6), rfs.loc(p.end_node),
                       "failure path increments %s exactly once and passes it to RequestFailedException" % counter,
-                      bad="_read_from_socket raises RequestFailedException with %d increment(s) of %s and count argument %s [path %s]" % (
-                          len(incs), counter, norm(arg) if arg is not None else "<missing>", p.describe(6)))
+                      bad="_read_from_socket raises RequestFailedException after changing %s by %r and passing %s as the count [path %s]" % (
+                          counter, delta, norm(arg) if arg is not None else "<missing>", p.describe(6)))
     if nret == 0 or nraise < 2:
         raise AnalysisError("_read_from_socket: expected a success path and two failure conversions, found %d/%d" % (nret, nraise))
     # RequestFailedException stores its second argument as consecutive_failures_count
